@@ -635,7 +635,7 @@ def muladd16(a: fp.Real, b: fp.Real, c: fp.Real) -> tuple[fp.Real, fp.Real]:
 
 SIG = {
     'muladd8': ['num', 'num', 'num'],
-    'widen': ['num'],
+    'widen': ['flagged'],
     'slow_churn': ['num'],
     'q_a16': ['num'],
     'q_b8': ['num'],
